@@ -10,16 +10,6 @@ from ..cfg import cfg_of, header_expr
 from . import shared
 
 
-def reduce_defs(mod):
-    out = []
-    for cls in ast.walk(mod):
-        if isinstance(cls, ast.ClassDef):
-            m = methods_of(cls).get('__reduce__')
-            if m is not None:
-                out.append((cls, m))
-    return out
-
-
 def run(rep):
     repo = rep.repo
     imod = repo.module('interface.py')
@@ -39,213 +29,7 @@ def run(rep):
                 'every declaration shape and pickle protocol (round-trip over '
                 'runtime values)')
 
-    # ---- R13.1 -------------------------------------------------------------------
-    reds = reduce_defs(imod) + reduce_defs(dmod)
-    seen = set()
-    for cls, m in reds:
-        name = cls.name
-        if name == 'Components':
-            continue
-        seen.add(name)
-        rets = [r.value for r in walk_local(m) if isinstance(r, ast.Return)]
-        site = '%s.__reduce__' % name
-        ok = len(rets) == 1
-        detail = 'returns: %d' % len(rets)
-        if ok:
-            v = rets[0]
-            if name == 'InterfaceClass':
-                ok = match('self.__name__', v) is not None
-                detail = 'an interface pickles as its global name: %s' % norm_src(v)
-            elif name == '_ImmutableDeclaration':
-                ok = isinstance(v, ast.Constant) and v.value == '_empty'
-                glob = [n for n in dmod.body if isinstance(n, ast.Assign)
-                        and match('_empty = _ImmutableDeclaration()', n, 'exec') is not None]
-                ok = ok and len(glob) == 1
-                detail = 'the empty declaration pickles as the global `_empty`, ' \
-                    'which is bound to the singleton (%s)' % (len(glob) == 1)
-            elif isinstance(v, ast.Tuple) and len(v.elts) == 2:
-                fn, args = v.elts
-                okfn = dotted(fn) in ('implementedBy', 'Provides', 'self.__class__')
-                okargs = True
-                if isinstance(args, ast.Tuple):
-                    for a in args.elts:
-                        a2 = resolve_local(m, a) if isinstance(a, ast.Name) else a
-                        okargs = okargs and (
-                            isinstance(a2, ast.Attribute) or isinstance(a2, ast.Name)
-                            or isinstance(a2, ast.IfExp))
-                else:
-                    okargs = match('self.__args', args) is not None
-                bad = [n for n in ast.walk(v) if isinstance(n, ast.Attribute)
-                       and n.attr in ('__bases__', '_bases', '__doc__', '__dict__',
-                                      '__iro__', '__sro__', '_implied')]
-                ok = okfn and okargs and not bad
-                detail = ('(%s, %s): callable is a module-level reference (%s), '
-                          'arguments are recorded classes/interfaces (%s), no '
-                          'definition data (%s)' % (norm_src(fn), norm_src(args)[:60],
-                                                    okfn, okargs, [norm_src(b) for b in bad]))
-            else:
-                ok = False
-                detail = 'unexpected reduce value `%s`' % norm_src(v)[:80]
-        rep.check('R13.1', site, ok, detail, construct='form', node=m)
-    rep.require({'InterfaceClass', 'Implements', 'Provides', 'ClassProvides',
-                 '_ImmutableDeclaration'} <= seen,
-                '__reduce__ definitions found: %s' % sorted(seen))
-
-    # ---- R13.2 -------------------------------------------------------------------
-    pcls = [n for n in dmod.body if isinstance(n, ast.ClassDef) and n.name == 'Provides'][0]
-    cp = find_def(dmod, 'ClassProvides')
-    for cls, site, want, params in (
-            (pcls, 'ProvidesClass', '(cls,) + interfaces', ['self', 'cls']),
-            (cp, 'ClassProvides', '(cls, metacls) + interfaces', ['self', 'cls', 'metacls'])):
-        init = methods_of(cls)['__init__']
-        ws = [n for n in ast.walk(cls) if isinstance(n, (ast.Assign, ast.AugAssign))
-              and any(isinstance(t, ast.Attribute) and t.attr.endswith('__args')
-                      for t in (n.targets if isinstance(n, ast.Assign) else [n.target]))]
-        ok = len(ws) == 1 and ws[0] in init.body and \
-            match(want, ws[0].value) is not None and \
-            shared.params(init) == params and init.args.vararg is not None and \
-            init.args.vararg.arg == 'interfaces'
-        rep.check('R13.2', site + '.__init__', ok,
-                  'self.__args = %s recorded once from the constructor\'s own '
-                  'parameters %s + *interfaces' % (norm_src(ws[0].value) if ws else '?',
-                                                   params[1:]),
-                  construct='capture', node=init)
-        red = methods_of(cls)['__reduce__']
-        rets = [r.value for r in walk_local(red) if isinstance(r, ast.Return)]
-        okr = len(rets) == 1 and isinstance(rets[0], ast.Tuple) and \
-            match('self.__args', rets[0].elts[1]) is not None
-        rep.check('R13.2', site + '.__reduce__', okr,
-                  'reduces to the recorded constructor arguments (not to the '
-                  'effective, elided bases): %s' % [norm_src(r)[:70] for r in rets],
-                  construct='args', node=red)
-    # the factory function accepts them in that order
-    pf = None
-    for n in dmod.body:
-        if isinstance(n, ast.FunctionDef) and n.name == 'Provides':
-            pf = n
-    rep.require(pf is not None, 'factory function Provides vanished')
-    ok = pf.args.vararg is not None and not pf.args.args and \
-        bool(find_all(pf, 'ProvidesClass(*%s)' % pf.args.vararg.arg))
-    rep.check('R13.2', 'declarations.Provides', ok,
-              'Provides(*args) rebuilds ProvidesClass(*args) (through the '
-              'shared-declaration memo)', construct='factory', node=pf)
-    # callers record normalised interfaces
-    d = find_def(dmod, 'directlyProvides')
-    nm = [n for n in d.body if isinstance(n, ast.Assign)
-          and match('interfaces = _normalizeargs(interfaces)', n, 'exec') is not None]
-    ctor = find_all(d, 'ClassProvides(object, cls, *interfaces)') + \
-        find_all(d, 'Provides(cls, *interfaces)')
-    cfg = cfg_of(d)
-    okn = len(nm) == 1 and len(ctor) == 2 and all(
-        cfg.dominated_by(cfg.node_of(c), lambda n: n.ast is nm[0]) for c, _ in ctor)
-    rep.check('R13.2', 'declarations.directlyProvides', okn,
-              'both declaration constructors receive the normalised '
-              '(flattened) interfaces, so only interfaces are recorded for '
-              'pickling', construct='normalised-args', node=d)
-
-    # ---- R13.3 -------------------------------------------------------------------
-    imp = find_def(dmod, 'Implements')
-    red = methods_of(imp)['__reduce__']
-    rets = [r.value for r in walk_local(red) if isinstance(r, ast.Return)]
-    ref_fields = []
-    ok = len(rets) == 1 and isinstance(rets[0], ast.Tuple) and \
-        dotted(rets[0].elts[0]) == 'implementedBy'
-    form = 'unknown'
-    if ok:
-        arg = rets[0].elts[1]
-        a0 = arg.elts[0] if isinstance(arg, ast.Tuple) and len(arg.elts) == 1 else None
-        if a0 is not None and match('self.inherit', a0) is not None:
-            form = 'inherit'
-            ref_fields = ['inherit']
-        elif a0 is not None and isinstance(a0, ast.Name):
-            # ob = self._spec_of; if ob is None: ob = self.inherit
-            cfg = cfg_of(red)
-            defs = [n for n in walk_local(red) if isinstance(n, ast.Assign)
-                    and isinstance(n.targets[0], ast.Name) and n.targets[0].id == a0.id]
-            prim = [d for d in defs if match('self._spec_of', d.value) is not None]
-            fb = [d for d in defs if match('self.inherit', d.value) is not None]
-            okfb = len(prim) == 1 and len(fb) == 1 and isinstance(fb[0].parent, ast.If) \
-                and match('%s is None' % a0.id, fb[0].parent.test) is not None
-            if okfb:
-                form = 'spec_of-else-inherit'
-                ref_fields = ['_spec_of']
-            else:
-                form = 'other: %s' % [norm_src(d) for d in defs]
-                if len(prim) == 1 and len(fb) == 1:
-                    form = ('fallback not selected by identity: `%s`'
-                            % (norm_src(fb[0].parent.test)
-                               if isinstance(fb[0].parent, ast.If) else norm_src(fb[0])))
-        elif a0 is not None and isinstance(a0, (ast.BoolOp, ast.IfExp)):
-            form = 'fallback selected by truthiness: `%s` (a falsy class, e.g. ' \
-                'one whose metaclass defines __len__/__bool__, pickles as ' \
-                'implementedBy(None))' % norm_src(a0)
-    rep.check('R13.3', 'Implements.__reduce__',
-              ok and form in ('inherit', 'spec_of-else-inherit'),
-              'reduces to (implementedBy, (<reference>,)); reference form: %s' % form,
-              construct='reference', node=red)
-    # installers
-    installs = []
-    for f in ast.walk(dmod):
-        if not isinstance(f, FUNC):
-            continue
-        for st in walk_local(f):
-            if isinstance(st, ast.Assign):
-                for t in st.targets:
-                    if isinstance(t, ast.Attribute) and t.attr == '__implemented__' \
-                            and isinstance(st.value, ast.Name):
-                        installs.append((f, st, t.value, st.value.id))
-                    if isinstance(t, ast.Subscript) and \
-                            dotted(t.value) == 'BuiltinImplementationSpecifications' \
-                            and isinstance(st.value, ast.Name):
-                        installs.append((f, st, t.slice, st.value.id))
-    rep.require(len(installs) >= 3, 'installation sites found: %d' % len(installs))
-    primary = ref_fields[0] if ref_fields else 'inherit'
-    for f, st, owner, specvar in installs:
-        cfg = cfg_of(f)
-        node = cfg.node_of(st)
-        want = '%s.%s = %s' % (specvar, primary, norm_src(owner))
-        setp = pred_of(want, 'exec')
-        ok = cfg.dominated_by(node, setp)
-        # and not overwritten with something else in between
-        other = [n for n in cfg.nodes if isinstance(n.ast, ast.Assign) and any(
-            isinstance(t, ast.Attribute) and t.attr == primary and
-            isinstance(t.value, ast.Name) and t.value.id == specvar
-            for t in n.ast.targets) and not setp(n)]
-        clobber = [norm_src(n.ast) for n in other
-                   if node.id in cfg.reach(n) and any(
-                       n.id in cfg.reach(s) for s in cfg.nodes
-                       if s.ast is not None and setp(s))]
-        if primary == 'inherit':
-            # every path must carry inherit = owner (no branch storing None)
-            bad = [norm_src(n.ast) for n in other if node.id in cfg.reach(n)]
-            ok = ok and not bad
-            clobber = bad
-        rep.check('R13.3', qualname(f), ok and not clobber,
-                  'installing `%s` as the specification of `%s` is dominated by '
-                  '`%s` (%s); overwritten by %s' % (specvar, norm_src(owner), want, ok,
-                                                    clobber),
-                  construct='install:%s' % norm_src(st.targets[0])[:40], node=st)
-    # no other writer of the primary reference field clears it
-    writers = []
-    for f in ast.walk(dmod):
-        if not isinstance(f, FUNC):
-            continue
-        for st in walk_local(f):
-            if isinstance(st, ast.Assign):
-                for t in st.targets:
-                    if isinstance(t, ast.Attribute) and t.attr == primary and \
-                            not (isinstance(t.value, ast.Name) and t.value.id == 'self'
-                                 and qualname(f).endswith('__init__')):
-                        writers.append((f, st))
-    bad = []
-    for f, st in writers:
-        v = st.value
-        if isinstance(v, ast.Constant) and v.value is None:
-            bad.append('%s: %s' % (qualname(f), norm_src(st)))
-        if qualname(f) == '_implementedBy_super':
-            continue
-    rep.check('R13.3', 'writers of Implements.%s' % primary, not bad,
-              'no function clears the pickle reference of a live class '
-              'specification (writers: %s; clearing: %s)'
-              % (sorted({qualname(f) for f, st in writers}), bad),
-              construct='no-clear', node=imp)
+    from . import picklesem
+    picklesem.reduce_forms(rep, imod, dmod, 'R13.1')
+    picklesem.ctor_capture(rep, dmod, 'R13.2')
+    picklesem.reduce_reference(rep, dmod, 'R13.3')
